@@ -39,7 +39,9 @@ import (
 // evaluated: Unmarshal into the dirty message vs. into a fresh one, and
 // proto.Reset vs. a new message.
 
-func init() { Register("reset", famReset) }
+// "resetpr" is the same family under another name: props/C15.json runs it with
+// -tags protoreflect, and bin/check names the output file after the family.
+func init() { Register("reset", famReset); Register("resetpr", famReset) }
 
 type resetFld struct {
 	fd  protoreflect.FieldDescriptor
@@ -1032,8 +1034,12 @@ func resetRun(c *Ctx, h *resetHist) {
 	b := h.final.wire
 	fresh := rt.mt.New()
 	var err1, err2 error
-	p1 := resetTry(func() { err1 = proto.UnmarshalOptions{AllowPartial: true}.Unmarshal(append([]byte(nil), b...), m1.Interface()) })
-	p2 := resetTry(func() { err2 = proto.UnmarshalOptions{AllowPartial: true}.Unmarshal(append([]byte(nil), b...), fresh.Interface()) })
+	p1 := resetTry(func() {
+		err1 = proto.UnmarshalOptions{AllowPartial: true}.Unmarshal(append([]byte(nil), b...), m1.Interface())
+	})
+	p2 := resetTry(func() {
+		err2 = proto.UnmarshalOptions{AllowPartial: true}.Unmarshal(append([]byte(nil), b...), fresh.Interface())
+	})
 	switch {
 	case p1 != "" || p2 != "":
 		c.PropFail("C15", "Unmarshal panicked: dirty="+p1+" fresh="+p2, h.desc()...)
@@ -1045,7 +1051,11 @@ func resetRun(c *Ctx, h *resetHist) {
 		var b1, b2 []byte
 		var e12, e21 bool
 		q1 := resetTry(func() { d1 = resetDumpS(m1); b1 = resetDet(m1); e12 = proto.Equal(m1.Interface(), fresh.Interface()) })
-		q2 := resetTry(func() { d2 = resetDumpS(fresh); b2 = resetDet(fresh); e21 = proto.Equal(fresh.Interface(), m1.Interface()) })
+		q2 := resetTry(func() {
+			d2 = resetDumpS(fresh)
+			b2 = resetDet(fresh)
+			e21 = proto.Equal(fresh.Interface(), m1.Interface())
+		})
 		switch {
 		case q1 != "" || q2 != "":
 			if err1 == nil {
